@@ -101,7 +101,14 @@ func (g *gen) keySchema() *Schema {
 }
 
 func (g *gen) structSchema(depth int, iface bool, ptr bool, code bool) *Schema {
+	return g.structSchemaT(depth, iface, ptr, code, true)
+}
+
+// structSchemaT: allowType=false forbids every use of the "type" key (own code, tag keys, inlined codes): the struct is
+// flattened into an object that already has one.
+func (g *gen) structSchemaT(depth int, iface bool, ptr bool, code bool, allowType bool) *Schema {
 	s := &Schema{Kind: "struct", Ptr: ptr, Code: -1}
+	usesType := code || !allowType
 	if code {
 		s.Code, s.CodeU8 = g.nCode, g.codeU8
 		g.nCode += 1 + int64(g.r.Intn(3))
@@ -115,14 +122,40 @@ func (g *gen) structSchema(depth int, iface bool, ptr bool, code bool) *Schema {
 		f := &Field{Name: fmt.Sprintf("F%d%s", g.nField, vx.Pick(g.r, nameSuffix))}
 		if g.r.Chance(1, 4) {
 			f.TagKey = fmt.Sprintf("k%d", g.nField)
-			if g.r.Chance(1, 8) && !code {
+			if g.r.Chance(1, 8) && !usesType {
 				f.TagKey = "type"
-				for _, o := range s.Fields {
-					if o.TagKey == "type" {
-						f.TagKey = fmt.Sprintf("k%d", g.nField)
-					}
-				}
+				usesType = true
 			}
+		}
+		if depth < 2 && g.r.Chance(1, 7) {
+			// inlined / embedded struct (by value or pointer): entries flattened into this struct's object
+			f.TagKey = ""
+			switch g.r.Intn(3) {
+			case 0:
+				f.Inline = true
+			case 1:
+				f.Emb = true
+				f.Name = fmt.Sprintf("E%d", g.nField)
+			default:
+				f.Inline, f.Emb = true, true
+				f.Name = fmt.Sprintf("E%d", g.nField)
+			}
+			plainEmb := f.Emb && !f.Inline
+			if f.Inline && g.r.Chance(1, 3) {
+				// "key,inlined": an ordinary nested field under that key (fixed 18e6a53: the decoder read it flat)
+				f.TagKey = fmt.Sprintf("k%d", g.nField)
+				f.S = g.structSchemaT(depth+1, iface, g.r.Bool(), g.r.Chance(1, 3), true)
+				s.Fields = append(s.Fields, f)
+				continue
+			}
+			// a plain embedded struct may have a registered code (it is ignored); an inlined one writes its code
+			childCode := g.r.Chance(1, 3) && (plainEmb || !usesType)
+			f.S = g.structSchemaT(depth+1, iface, g.r.Bool(), childCode, !usesType)
+			if f.S.hasTypeKey(plainEmb) {
+				usesType = true
+			}
+			s.Fields = append(s.Fields, f)
+			continue
 		}
 		f.S = g.schema(depth+1, iface)
 		if f.S.Kind == "u256" || f.S.Kind == "iface" || (f.S.Kind == "struct" && f.S.Ptr) {
@@ -550,6 +583,33 @@ func (h *harness) directed() {
 				h.encCase(nil, ts, tapi, p, false, !fill, "directed-nonstring-map-key")
 				for _, doc := range []string{`{"m":{"1":true}}`, `{"m":[{"1":true}]}`, `{"m":{"true":true}}`, `{"m":{}}`, `{"m":[{}]}`} {
 					h.decCase(ts, tapi, lit(doc), false, "directed-nonstring-map-key")
+				}
+			}
+		}
+	}
+	// fixed 18e6a53: `serix:"in,inlined"` is written as a nested object under "in" but was decoded from the enclosing
+	// object (missing map entry); embedded and named, by value and by pointer; then the flat forms
+	for _, emb := range []bool{true, false} {
+		for _, ptr := range []bool{false, true} {
+			for _, key := range []string{"in", ""} {
+				inner := &Schema{Kind: "struct", Ptr: ptr, Code: -1, Fields: []*Field{{Name: "A", S: &Schema{Kind: "num", NK: "I8"}}}}
+				name := "I"
+				if emb {
+					name = "EInner"
+				}
+				ts := &Schema{Kind: "struct", Code: -1, Fields: []*Field{{Name: name, TagKey: key, Inline: true, Emb: emb, S: inner}, {Name: "B", S: &Schema{Kind: "num", NK: "I8"}}}}
+				tapi := setup(ts)
+				p := reflect.New(ts.T)
+				in := p.Elem().Field(0)
+				if ptr {
+					in.Set(reflect.New(inner.T.Elem()))
+					in = in.Elem()
+				}
+				in.Field(0).SetInt(5)
+				p.Elem().Field(1).SetInt(6)
+				h.encCase(nil, ts, tapi, p, false, true, "directed-keyed-inlined")
+				for _, doc := range []string{`{"in":{"a":5},"b":6}`, `{"a":5,"b":6}`, `{"in":{"a":5},"a":7,"b":6}`, `{"in":5,"b":6}`, `{"b":6}`} {
+					h.decCase(ts, tapi, lit(doc), false, "directed-keyed-inlined")
 				}
 			}
 		}
